@@ -10,7 +10,7 @@ TEXT = {
  "C03": "partial: three-way correspondence (implementation / Coq model / reference semantics of the generator) over random abstract documents x renderings; lexer theorems are partial.",
  "C04": "partial proof: the text machine (TextBuffer with pending CR, as driven by process_text) is proved equal to the XML decoding of Spec/Text.v for every chunk sequence, also on the model's own loop (process_text_with) for runs without general entity references; CDATA normalisation proved; the composition through entity references is not proved (covered by exhaustive piece sequences in the correspondence).",
  "C05": "partial proof: attribute-value normalisation proved against Spec/Text.v (3.3.3) for every chunk sequence at top level and inside entity values, also on the model's normalize_attribute for values without general entity references; list/order theorems at builder level as they land; composition through nested entities not proved (exhaustive piece sequences in the correspondence).",
- "C06": "partial proof: function-level theorems (scope of an element = own declarations then inherited non-redeclared bindings; names resolve to the first binding; duplicate declarations detected; prefix uniqueness preserved; the 2^16 limit) proved about the model; their composition over a whole parse is not proved; exhaustive small scoping documents and the 2^16 scale family in the correspondence.",
+ "C06": "partial proof: over a whole parse (parse_scopes_ok, parse_names_ok): every element's namespace range denotes a prefix-unique scope that is scope_of own (parent's scope), and tag / attribute namespace indices denote resolve_elem / resolve_attr of some prefix in that scope; function level: the scope is own declarations then inherited non-redeclared bindings, first-binding resolution, duplicate declarations detected, the 2^16 limit. Not proved: that `own` is exactly the element's written declarations and the prefix exactly the written prefix (they are existentially quantified in the whole-parse theorems; the function-level theorems and process_attribute_classifies cover the individual steps). Exhaustive small scoping documents and the 2^16 scale family in the correspondence.",
  "C07": "partial: metamorphic correspondence (inline vs hoisted renderings) on implementation and model; attribute half and first-declaration-wins as lemmas when they land; D15 is a recorded known finding.",
  "C08": "partial proof: the three character classes are proved equal to the Fifth Edition productions for every scalar value, against tables regenerated from the source on every run; local rejection theorems as they land; whole-parser soundness is not proved; catalogue / truncation / token-string / code-point correspondence with a rejection oracle.",
  "C09": "partial proof: the loop detector is proved sound and complete w.r.t. the trace specification, with the documented numbers (10, 255) against constants regenerated from the source; the expansion budget over a whole parse is checked by the oracle, not proved.",
